@@ -7,7 +7,7 @@
    `nb_in_range`, `nb_symmetric`, `nb_same_sets` = the hypotheses on the backend's answers. *)
 From Coq Require Import List Arith ZArith Bool Lia.
 From SC Require Import C13.Model C13.Spec C13.ProofsBase C13.ProofsMain C13.ProofsBackend C13.ProofsPredict.
-From SC Require Import C13.Corr C13.ProofsCorr.
+From SC Require Import C13.Corr C13.ProofsCorr C13.ProofsLinear.
 Import ListNotations.
 
 (* Functional correctness of `fit` for every neighbourhood function with indices in range that is
@@ -31,6 +31,20 @@ Theorem C13_dbscan_correct : forall nb minpts n y c,
   (forall l, (0 <= l < c)%Z -> exists i, i < n /\ core nb minpts i /\ get y i = l) /\
   (forall i q, i < n -> In q (nb i) -> core nb minpts q -> (0 <= get y i <= get y q)%Z).
 Proof. intros nb minpts n y c Hr Hs. exact (dbscan_correct nb minpts n Hr Hs y c). Qed.
+
+(* The hypotheses hold for the linear-scan backend with every symmetric "distance <= eps" test
+   (any metric): its answer for row i is the duplicate-free, increasing list of the j < n within eps. *)
+Theorem C13_linear_scan_wellformed : forall within n,
+  (forall i j, i < n -> j < n -> within i j = within j i) ->
+  nb_in_range (linear_radius within n) n /\
+  nb_symmetric (linear_radius within n) n /\
+  (forall i, NoDup (linear_radius within n i)) /\
+  (forall i j, In j (linear_radius within n i) <-> j < n /\ within i j = true).
+Proof.
+  intros within n Hs. destruct (linear_radius_wellformed within n Hs) as (A & B & C).
+  split; [exact A|]. split; [exact B|]. split; [exact C|].
+  intros i j. apply linear_radius_In.
+Qed.
 
 (* Termination by an explicit measure (stack length + total neighbour-list length of the points
    that can still be expanded): the model's `while` loop never runs out of the fuel `dbscan`
@@ -115,6 +129,12 @@ Definition ex_nbs : list (list nat) :=
   [[0;1;2]; [0;1;2]; [0;1;2;3]; [2;3;4]; [3;4;5;6]; [4;5;6]; [4;5;6]; [7]].
 Definition ex_nb (i : nat) : list nat := nth i ex_nbs [].
 Definition ex_nb_rev (i : nat) : list nat := rev (ex_nb i).
+
+(* the lists above are what the linear scan returns for those points *)
+Definition ex_pts : list Z := [1; 1; 2; 4; 6; 7; 7; 20]%Z.
+Definition ex_within (i j : nat) : bool := (Z.abs (nth i ex_pts 0 - nth j ex_pts 0) <=? 2)%Z.
+Example C13_example_linear_scan : map (linear_radius ex_within 8) (seq 0 8) = ex_nbs.
+Proof. vm_compute. reflexivity. Qed.
 
 Example C13_example_hypotheses : nb_in_range ex_nb 8 /\ nb_symmetric ex_nb 8.
 Proof.
